@@ -147,7 +147,7 @@ def run_check(prop, P, args):
     if P.get("bounded") and not args.no_bounded:
         try:
             mod = importlib.import_module(P["bounded"])
-            bstats, bfailure = mod.explore(tier)
+            bstats, bfailure = mod.explore(tier, prop)
         except Exception:
             berror = traceback.format_exc()
 
